@@ -362,6 +362,21 @@ def narrow_variants(t):
         if len(keep) == 1:
             return narrow_variants(simp(("field", ("variant", keep[0], name), t[2])))
         return t
+    if t[0] == "field" and t[1][0] == "variant" and t[1][2] == "Continue":
+        # `x?`: the Continue payload of Try::branch(x) is the payload of x's Ok / Some alternatives
+        b = strip(t[1][1], calls=False)
+        if b[0] == "call" and b[1].rsplit("::", 1)[-1] == "branch" and len(b[2]) == 1:
+            x = b[2][0]
+            oks = [y for y in alts(x) if y[0] == "agg" and (y[1].endswith("Result::Ok") or y[1].endswith("Option::Some"))]
+            rest = [y for y in alts(x) if not (y[0] == "agg" and y[1].startswith("adt:std::") and
+                                               (y[1].endswith("Result::Err") or y[1].endswith("Option::None") or y in oks))]
+            if len(oks) == 1 and not rest and len(oks[0][2]) == 1:
+                return narrow_variants(oks[0][2][0])
+            if x[0] != "phi":
+                # not a literal: the payload of x's own Ok / Some variant
+                name = "Some" if "option::Option" in b[1] else "Ok"
+                return ("field", ("variant", x, name), t[2])
+        return t
     if t[0] in ("ref", "deref"):
         return simp((t[0], narrow_variants(t[1])))
     return t
